@@ -19,6 +19,10 @@ fn main() {
       continue;
     }
     let parts: Vec<&str> = line.split(' ').collect();
+    if parts[0] == "note" {
+      writeln!(out, "note").unwrap();
+      continue;
+    }
     let res = match comp.as_str() {
       "wire" => h::guarded(|| h::wire::run_op(&parts)),
       "engine" => {
